@@ -43,6 +43,15 @@ Proof.
   destruct E as [[raw [Hin Hp]] Q]. split; auto. split; [exists l, raw; auto|exact Q].
 Qed.
 
+Lemma authorize_bound_metadata en mns dns csa ids v :
+  authorize en (config_namespace mns dns) csa ids = AuthAccepted (Some v) ->
+  mns <> "" -> id_ns v = mns.
+Proof.
+  intros H Hm. apply authorize_bound in H. destruct H as (_ & _ & Hn & _).
+  unfold config_namespace in Hn. apply String.eqb_neq in Hm. rewrite Hm in Hn. cbn in Hn.
+  apply Hn. apply String.eqb_neq. exact Hm.
+Qed.
+
 (* with the check on, an authenticated stream whose credential proves no matching identity is refused *)
 Lemma authorize_denies en cns csa l :
   en = true -> (forall raw, In raw l -> identity_matches cns csa raw = None) ->
